@@ -49,11 +49,15 @@ def io_graph(rng, depth=0):
         g["nodes"] = [[n, rec] for n, rec in g["nodes"] if n not in outs]
         g["edges"] = [e for e in g["edges"] if e[0] not in outs and e[1] not in outs]
     elif r < 0.5:
-        # an edge into an Input node (shape-compatible or not)
+        # edges into Input nodes (shape-compatible or not), among them a chained second Input of another shape
         ins = [n for n, rec in g["nodes"] if rec["type"] == "Input"]
         others = [n for n, rec in g["nodes"] if rec["type"] not in ("Input",)]
         if ins and others:
             g["edges"].append([rng.choice(others), rng.choice(ins)])
+        if ins and rng.random() < 0.6:
+            s2 = gen.shape(rng, rank=rng.randrange(1, 3), lo=7, hi=9)
+            g["nodes"].append(["in_late", {"type": "Input", "kwargs": [["input_type", gen.shape_arg(rng, s2, "input")]]}])
+            g["edges"].insert(rng.randrange(0, len(g["edges"]) + 1), [rng.choice(ins), "in_late"])
     elif r < 0.7:
         # an inference that fails part-way (nested graph as a successor: NotImplementedError) next to an
         # Output whose own shape is erased, so that the Output may be re-typed before the error is raised
